@@ -7,7 +7,7 @@ import check
 def main():
     os.makedirs(check.BUILD, exist_ok=True)
     with check.Lock("build"):
-        ok, msg = check.build_tools()
+        ok, msg = check.build_tools(race=True)
         print("tools:", "ok" if ok else msg)
         if not ok:
             sys.exit(1)
@@ -16,7 +16,7 @@ def main():
         if not ok:
             sys.exit(1)
         rc, out = check.run(["coq_makefile", "-f", "_CoqProject", "-o", "Makefile"], cwd=check.COQ)
-        rc, out = check.run(["make", "-j16"], cwd=check.COQ, timeout=3400)
+        rc, out = check.run(["make", "-j16", "COQC=timeout 1500 coqc"], cwd=check.COQ, timeout=3400)
         print(out[-3000:])
         if rc != 0:
             sys.exit(1)
